@@ -34,7 +34,9 @@ class YosysStructuralTranslatorL3(
         ret += s.ifc_port_gen( d, msb, f"{ifc_id}__{i}", _id, n_dim[1:] )
       return ret
 
-  def ifc_conn_gen( s, d, cpid, _pid, cwid, _wid, idx, n_dim ):
+  def ifc_conn_gen( s, d, cpid, _pid, cwid, _wid, idx, n_dim, ifc_idx = "" ):
+    # `ifc_idx` collects the indices of the interface array (outermost
+    # dimension first); they go in front of the index of the port itself.
     if d.startswith( "input" ):
       template = "assign {wid}{idx} = {pid};"
     else:
@@ -43,13 +45,14 @@ class YosysStructuralTranslatorL3(
     if not n_dim:
       pid = f"{cpid}__{_pid}"
       wid = f"{cwid}__{_wid}"
+      idx = f"{ifc_idx}{idx}"
       return [ template.format( **locals() ) ]
     else:
       ret = []
       for i in range( n_dim[0] ):
         _cpid = f"{cpid}__{i}"
-        _idx  = f"[{i}]{idx}"
-        ret += s.ifc_conn_gen( d, _cpid, _pid, cwid, _wid, _idx, n_dim[1:] )
+        _ifc_idx = f"{ifc_idx}[{i}]"
+        ret += s.ifc_conn_gen( d, _cpid, _pid, cwid, _wid, idx, n_dim[1:], _ifc_idx )
       return ret
 
   #-----------------------------------------------------------------------
